@@ -349,6 +349,7 @@ class Scn:
             raise Inconclusive("operation after crash")
         s = self.s
         f = s.find_fn("list_sync")
+        self.env.begin_op("list_sync")
         try:
             it = s.I.run_fn(f, [self.cache()])
             from .models.core import RIter
@@ -482,6 +483,42 @@ class Scn:
             self.env.vfs.lookup(SBytes.of(path))
             self.env.vfs.cwd = SBytes.of(path)
         return self._fs("chdir", dict(path=path), go)
+
+    # -- crash / fault injection around operations
+    def arm_crash(self, torn=True):
+        from .models.fs import CrashController
+        if self.env.crash is None:
+            self.env.crash = CrashController(torn=torn)
+        self.env.crash.armed = True
+
+    def disarm(self):
+        if self.env.crash is not None:
+            self.env.crash.armed = False
+        if self.env.fault is not None:
+            self.env.fault.armed = False
+
+    def arm_fault(self, kinds=None, short_write=True):
+        from .models.fs import FaultController
+        if self.env.fault is None:
+            self.env.fault = FaultController(kinds=kinds, short_write=short_write)
+        self.env.fault.armed = True
+
+    def crashed(self):
+        return self.env.crash is not None and self.env.crash.fired is not None
+
+    def restart(self):
+        """The process was killed: everything in memory is gone (handles, pending background work);
+        the filesystem stays.  Later operations run in a fresh process."""
+        self.env.crashed = False
+        self.disarm()
+        self.env.runtime = None
+        self.handles = [None] * len(self.handles)
+        self.s = Session(self.w, self.flavour, env=self.env)
+        # the step during which the kill happened
+        for st in reversed(self.log):
+            if st.outcome.kind == "crash":
+                self.crash_step = st.index
+                break
 
     # -- observation helpers for oracles
     def content_path_of(self, sri):
@@ -647,7 +684,38 @@ class Concretiser:
 
     def scenario(self, upto=None):
         steps = [self.step(st) for st in self.scn.log[:upto]]
-        return {"flavour": self.scn.flavour, "steps": steps}
+        out = {"flavour": self.scn.flavour, "steps": steps}
+        env = self.scn.env
+        if env.crash is not None and env.crash.fired is not None:
+            fired = env.crash.fired
+            k = None
+            for st in self.scn.log:
+                if st.outcome.kind == "crash":
+                    k = st.index
+                    break
+            if k is None:
+                raise Unreplayable("crash outside a logged step")
+            out["shim"] = {"mode": "crash", "step": k, "effects": fired["effects"],
+                           "torn": None if fired["torn"] is None else self.ev(fired["torn"])}
+        elif env.fault is not None and env.fault.fired is not None:
+            fired = env.fault.fired
+            k = getattr(self.scn, "fault_step", None)
+            if k is None:
+                raise Unreplayable("fault step unknown")
+            suffix = "*"
+            if fired.get("path") is not None:
+                p = self.bytes_of(fired["path"]).decode("utf-8", "replace")
+                comps = [c for c in p.split("/") if c]
+                suffix = "/".join(comps[-2:]) if len(comps) >= 2 else p
+                if ".tmp" in comps[-1]:
+                    suffix = "*"         # temp names are random natively: match by class and occurrence only
+            short = None
+            if fired.get("short"):
+                sv = [t for n, t in self.scn.w.sym_inputs.items() if n.startswith("short")]
+                short = self.ev(sv[-1]) if sv else 1
+            out["shim"] = {"mode": "fault", "step": k, "class": fired["kind"], "occurrence": fired["occurrence"],
+                           "errno": fired["errno"], "short": short, "suffix": suffix}
+        return out
 
 
 class Unreplayable(Exception):
